@@ -60,6 +60,20 @@ def handle : List String → String
         | some rs => "many " ++ joinList2 (rs.map fun r => match r with
             | none => "none"
             | some (u, p) => joinList ["ok", hexOfBytes u, hexOfBytes p])
+  | ["pacseq", creds, items] =>
+    -- one proxy instance with a PAC script: `items` = the script's answer per request (`ok,<hex>` | `fail`),
+    -- in order; per request `err` | `direct` | `proxy,<scheme>,<host:port>[,<user>,<pass>]`
+    match decodeCreds creds, (splitList2 items).mapM (fun it => C05.decodePacResult (splitList it)) with
+    | some es, some rs =>
+      match buildTable es with
+      | none => "rejected"
+      | some t =>
+        "seq " ++ joinList2 ((pacCredSeq t {} rs).map fun d => match d with
+          | .error _ => "err"
+          | .ok none => "direct"
+          | .ok (some u) => joinList (["proxy", hexOfBytes u.scheme, hexOfBytes u.host] ++
+              (match u.user with | some (a, b) => [hexOfBytes a, hexOfBytes b] | none => [])))
+    | _, _ => "bad-op"
   | "request" :: toks =>
     match decodeFull toks, decodeCtx toks, decodeReq toks with
     | some none, _, _ => "rejected"
